@@ -19,7 +19,7 @@ CLAIM = ("Spec/Warn.lean states the three warning sets over the reference graph 
          "back at their printed location in the source, must be exactly the spec sets, once each; exit status 0; the script must be "
          "byte-identical to the one compiled with every warned-about definition blanked out; and the model's three maps "
          "(Check.validate) must equal the library's (names and spans).")
-NOTE = ("All three warn_*_eq theorems are proved over the model of check.rs, which is compared exactly with the library on every case. Not a theorem: 'harmless' (the script is unchanged when the warned-about definitions are blanked out) and the printing of the warnings by main.rs (incl. dropping `_`) — both checked per grammar against the real binary. Trusted: vh, "
+NOTE = ("All three warn_*_eq theorems are proved over the model of check.rs, which is compared exactly with the library on every case. Also proved: warnings_harmless (deleting the definitions of a name no statement mentions leaves the validated expression, hence automaton and scripts, unchanged — whenever both grammars are accepted). Not a theorem: the printing of the warnings by main.rs (incl. dropping `_`) — checked per grammar against the real binary, as is the byte identity of the scripts. Trusted: vh, "
         "the regex reading `path:line:col:warning: kind` lines, the generator.")
 TECHNIQUE = "Lean 4 theorems (model of check.rs computes exactly the spec warning sets, for all grammars) + exact model/library correspondence + warning lines of the real binary against the spec sets"
 DESIGN_REF = "§3 C15"
